@@ -360,6 +360,7 @@ class Grammar:
         weights = self.get_weights()
         for rule in self.alternatives:
             prods = self.alternatives[rule]
+            before = {prod: weights[prod] for prod in prods}
             total_weights = 0
             for prod in prods:
                 weights[prod] += learning_rate * extra_weights[prod]
@@ -367,7 +368,11 @@ class Grammar:
             if total_weights == 0:
                 continue  # every production of this rule has weight zero: nothing to normalise
             for prod in prods:
-                weights[prod] = weights[prod] / total_weights
+                normalised = weights[prod] / total_weights
+                # A rule that is already normalised keeps its weights bit for bit: its sum is 1 only up to rounding, and dividing
+                # by it again would move the weights by an ulp whenever another rule makes the grammar renormalise.
+                unchanged = math.isclose(normalised, before[prod], rel_tol=1e-12, abs_tol=1e-15)
+                weights[prod] = before[prod] if unchanged else normalised
 
         for weight in weights:
             assert weights[weight] >= 0 and weights[weight] <= 1
